@@ -829,4 +829,76 @@ theorem C06_or (e : Env) (val : Val) (h : Feasible e val) (as : List Nat)
       · rw [if_neg h3]
         exact ⟨by simpa [Con.eval] using preBool_contains_b2r _, rfl⟩
 
+/-! ## division -/
+
+theorem fin_of_lb_gt {b : ER} {x q : Rat} (h : lbOK b x) (hc : lt (fin q) b = true) : ∃ p, b = fin p := by
+  cases b with
+  | fin p => exact ⟨p, rfl⟩
+  | ninf => simp [ER.lt] at hc
+  | pinf => simp [lbOK] at h
+  | nan => simp [lbOK] at h
+theorem fin_of_ub_lt {b : ER} {x q : Rat} (h : ubOK b x) (hc : lt b (fin q) = true) : ∃ p, b = fin p := by
+  cases b with
+  | fin p => exact ⟨p, rfl⟩
+  | pinf => simp [ER.lt] at hc
+  | ninf => simp [ubOK] at h
+  | nan => simp [ubOK] at h
+
+theorem foldl_smin_eq_minElem (a : ER) (l : List ER) : l.foldl smin a = minElem a l := rfl
+theorem foldl_smax_eq_maxElem (a : ER) (l : List ER) : l.foldl smax a = maxElem a l := rfl
+
+theorem default_contains (x : Rat) : ({} : Pre).Contains x := ⟨trivial, trivial, fun h => by simp at h⟩
+
+
+/-- **division**: when all four bounds are finite (within ±1e20) and the divisor's box excludes 0 (`l2·u2 > 0`) the result
+is bounded by the four corner quotients (and by the `DBL_MAX` / `DBL_MIN` seeds of the C++ loop); otherwise nothing
+is narrowed.  Sound at every point of the boxes (the divisor is then nonzero). -/
+theorem C06_div (e : Env) (val : Val) (h : Feasible e val) (a b : Nat) :
+    (preproDiv e a b).Contains (Con.eval tr trp val (.div a b)) := by
+  obtain ⟨hxl, hxu, _⟩ := h a
+  obtain ⟨hyl, hyu, _⟩ := h b
+  unfold preproDiv
+  simp only []
+  split
+  · next hcond =>
+    simp only [Bool.and_eq_true] at hcond
+    obtain ⟨⟨⟨⟨c1, c2⟩, c3⟩, c4⟩, c5⟩ := hcond
+    obtain ⟨a1, ha1⟩ := fin_of_lb_gt hxl c1
+    obtain ⟨b1, hb1⟩ := fin_of_ub_lt hxu c2
+    obtain ⟨c, hc⟩ := fin_of_lb_gt hyl c3
+    obtain ⟨d, hd⟩ := fin_of_ub_lt hyu c4
+    rw [ha1] at hxl; rw [hb1] at hxu; rw [hc] at hyl c5; rw [hd] at hyu c5
+    simp only [lbOK, ubOK] at hxl hxu hyl hyu
+    simp only [mul, ER.lt, decide_eq_true_eq] at c5
+    have hc0 : c ≠ 0 := fun h0 => by rw [h0] at c5; simp at c5
+    have hd0 : d ≠ 0 := fun h0 => by rw [h0] at c5; simp at c5
+    simp only [ha1, hb1, hc, hd, ER.div, hc0, hd0, if_false, foldl_smin_eq_minElem, foldl_smax_eq_maxElem]
+    obtain ⟨m, hm, _, hml⟩ := minElem_fin dblMax [a1 / c, a1 / d, b1 / c, b1 / d]
+    obtain ⟨M, hM, _, hMl⟩ := maxElem_fin dblMin [a1 / c, a1 / d, b1 / c, b1 / d]
+    simp only [List.map_cons, List.map_nil] at hm hM
+    rw [hm, hM]
+    -- 1/y lies between 1/d and 1/c
+    have hrec : 1 / d ≤ 1 / val b ∧ 1 / val b ≤ 1 / c := by
+      rcases pos_and_pos_or_neg_and_neg_of_mul_pos c5 with ⟨hcp, hdp⟩ | ⟨hcn, hdn⟩
+      · have hy : 0 < val b := lt_of_lt_of_le hcp hyl
+        exact ⟨one_div_le_one_div_of_le hy hyu, one_div_le_one_div_of_le hcp hyl⟩
+      · have hy : val b < 0 := lt_of_le_of_lt hyu hdn
+        exact ⟨(one_div_le_one_div_of_neg hdn hy).mpr hyu, (one_div_le_one_div_of_neg hy hcn).mpr hyl⟩
+    have hval : Con.eval tr trp val (.div a b) = val a * (1 / val b) := by
+      show val a / val b = _
+      exact div_eq_mul_one_div _ _
+    rw [hval]
+    have q1 : a1 / c = a1 * (1 / c) := div_eq_mul_one_div _ _
+    have q2 : a1 / d = a1 * (1 / d) := div_eq_mul_one_div _ _
+    have q3 : b1 / c = b1 * (1 / c) := div_eq_mul_one_div _ _
+    have q4 : b1 / d = b1 * (1 / d) := div_eq_mul_one_div _ _
+    refine fresh_range_sound' _ _ _ (Or.inr ?_) (Or.inr ?_)
+    · simp only [lbOK]
+      exact corner_le_mul hxl hxu hrec.1 hrec.2 m (q2 ▸ hml _ (by simp)) (q1 ▸ hml _ (by simp))
+        (q4 ▸ hml _ (by simp)) (q3 ▸ hml _ (by simp))
+    · simp only [ubOK]
+      exact mul_le_corner hxl hxu hrec.1 hrec.2 M (q2 ▸ hMl _ (by simp)) (q1 ▸ hMl _ (by simp))
+        (q4 ▸ hMl _ (by simp)) (q3 ▸ hMl _ (by simp))
+  · exact default_contains _
+
 end MpVerif.C06
